@@ -34,7 +34,7 @@ OUTSIDE = ('what the match relation is (C05/C06); real tracebacks of real exec (
 ASSUMPTIONS = [
     'traceback.format_exception_only(...)[-1] of the raised exception is the symbolic line  <module path><Name>[: <message>]\\n  (its documented shape)',
     'wants do not end with a newline (the parser ends a want at the first blank line)',
-    'IGNORE_WANT is combined only with parts whose outcome the statement fixes (no raising part with a traceback want): the statement is silent on "IGNORE_WANT + mismatching expected traceback"',
+    'IGNORE_WANT does not relax the exception rule: "only a matching expected traceback passes" is asserted under every IGNORE_WANT setting (this is what the tree does)',
     'want-less parts and raising parts print nothing, so "output since the previous want" is unambiguous (the accumulation rule is C02)',
 ]
 
@@ -274,8 +274,6 @@ class ExcTable(Base):
                     E.cap.write(self.O[i])
                 return None
             E.behaviour[i] = beh
-        if any(c['raises'] and c['wf'] == 2 for c in cfg):
-            ex.assume(z3.Not(self.iw))
         dt = m['doctest_example'].DocTest('', None, 'f', 0, 1, mode='native')
         dt.config['default_runtime_state'] = {'IGNORE_EXCEPTION_DETAIL': SymBool(self.ied), 'IGNORE_WANT': SymBool(self.iw)}
         dt._parts = parts
